@@ -43,6 +43,8 @@ type Opts struct {
 	BigPayloads bool `json:"big_payloads"`
 	BaseIndex   uint64 `json:"base_index"`
 
+	// SpecCheck: also abstract the run into actions of Spec/Raft.lean (static membership, BaseIndex 0)
+	SpecCheck bool `json:"spec_check"`
 	// Script replaces the random scheduler (see scenario.go)
 	Script []string `json:"script,omitempty"`
 	// Converge > 0: after Steps random actions run a fault-free suffix of that many election timeouts (C15)
@@ -74,6 +76,7 @@ type Cluster struct {
 	Net   []netMsg
 	Rec   *Rec
 	Mon   *Monitor
+	Spec  *SpecTracer
 	StepN int
 	// partition: group id per node (0 = connected to everybody in group 0)
 	Part map[uint64]int
@@ -125,13 +128,19 @@ func NewCluster(o Opts) *Cluster {
 	if o.MaxInflightMsgs == 0 {
 		o.MaxInflightMsgs = 8
 	}
-	if o.BaseIndex == 0 {
+	if o.BaseIndex == 0 && !o.SpecCheck {
 		o.BaseIndex = 2
+	}
+	if o.SpecCheck {
+		o.BaseIndex, o.ConfChanges = 0, false
 	}
 	c := &Cluster{O: o, Rng: rand.New(rand.NewSource(o.Seed)), Nodes: map[uint64]*Node{}, Part: map[uint64]int{},
 		Rec: &Rec{Keep: o.KeepText}, Stats: map[string]int{}, snapsInFlight: map[[2]uint64]bool{}}
 	theDraws.rng = rand.New(rand.NewSource(o.Seed ^ 0x5eed))
 	c.Mon = newMonitor(c)
+	if o.SpecCheck {
+		c.Spec = newSpecTracer(c)
+	}
 	cs := &pb.ConfState{Voters: append([]uint64(nil), o.Voters...), Learners: append([]uint64(nil), o.Learners...)}
 	all := append(append([]uint64(nil), o.Voters...), o.Learners...)
 	for pos, id := range all {
@@ -150,7 +159,11 @@ func (c *Cluster) addNode(id uint64, pos int, cs *pb.ConfState, member bool) *No
 	n := &Node{ID: id, Cfg: c.nodeConfig(id, pos), St: st, AppliedEnts: map[uint64]string{}, rec: c.Rec, c: c}
 	applied := uint64(0)
 	if member {
-		snap := &pb.Snapshot{Metadata: &pb.SnapshotMetadata{Index: new(c.O.BaseIndex), Term: new(uint64(1)),
+		bt := uint64(1)
+		if c.O.BaseIndex == 0 {
+			bt = 0
+		}
+		snap := &pb.Snapshot{Metadata: &pb.SnapshotMetadata{Index: new(c.O.BaseIndex), Term: new(bt),
 			ConfState: proto.Clone(cs).(*pb.ConfState)}}
 		if err := st.ApplySnapshot(snap); err != nil {
 			panic(err)
@@ -165,6 +178,9 @@ func (c *Cluster) addNode(id uint64, pos int, cs *pb.ConfState, member bool) *No
 	sort.Slice(c.IDs, func(i, j int) bool { return c.IDs[i] < c.IDs[j] })
 	n.Start(applied, false)
 	c.Mon.onStart(n)
+	if c.Spec != nil {
+		c.Spec.onStart(n)
+	}
 	return n
 }
 
@@ -202,6 +218,9 @@ func (c *Cluster) connected(a, b uint64) bool { return c.Part[a] == c.Part[b] }
 // send puts a message on the network (deep copy, as a transport would).
 func (c *Cluster) send(from *Node, m *pb.Message) {
 	c.Mon.onSend(from, m)
+	if c.Spec != nil {
+		c.Spec.onSend(from, m)
+	}
 	if m.GetTo() == from.ID {
 		// self-addressed messages never leave the node through the network
 		c.violate("C14", "self-addressed message handed to the network", "node %d emitted %s to itself", from.ID, m.GetType())
@@ -250,11 +269,17 @@ func (c *Cluster) processReady(n *Node, crashAt int) {
 		return
 	}
 	c.Mon.onReady(n, &rd)
+	if c.Spec != nil && !c.O.Async {
+		c.Spec.onWrite(n)
+	}
 	if c.O.Async {
 		for _, m := range rd.Messages {
 			switch m.GetTo() {
 			case raft.LocalAppendThread:
 				n.AppendQ = append(n.AppendQ, m)
+				if c.Spec != nil {
+					c.Spec.onWrite(n)
+				}
 			case raft.LocalApplyThread:
 				n.ApplyQ = append(n.ApplyQ, m)
 			default:
@@ -301,6 +326,9 @@ func (c *Cluster) persist(n *Node, snap *pb.Snapshot, ents []*pb.Entry, hs *pb.H
 		n.StSetHardState(hs)
 	}
 	c.Mon.onPersist(n)
+	if c.Spec != nil {
+		c.Spec.onPersist(n)
+	}
 }
 
 // appRestore installs a snapshot into the application state machine.
@@ -437,6 +465,9 @@ func (c *Cluster) crash(n *Node) {
 	c.trace("crash %d", n.ID)
 	c.Stats["crash"]++
 	c.Mon.onCrash(n)
+	if c.Spec != nil {
+		c.Spec.onCrash(n)
+	}
 	n.Crash()
 }
 
@@ -469,6 +500,9 @@ func (c *Cluster) restart(n *Node) {
 	n.Panic = ""
 	if n.Start(applied, true) {
 		c.Mon.onStart(n)
+		if c.Spec != nil {
+			c.Spec.onStart(n)
+		}
 	}
 }
 
